@@ -223,6 +223,27 @@ def r7_accumulate(ctx):
     ctx.rule("C18.r7", "kill/gen fixpoint: when the new fact is not included in the stored one, the stored fact becomes merge(new, old) - "
              "facts are never dropped between sweeps (the assertion crawler's transfer function registers an assertion only on its first "
              "visit, so it is not idempotent across sweeps)", floor=2)
+    # Is any client transfer function "first visit only" (finding F75: process_assertion returned early for a registered
+    # assertion)?  Only then does the solver have to accumulate with merge; with re-generating (monotone) transfer functions
+    # `stored = new` under `!(new <= old)` is the same fixpoint and must not be reported.
+    first_visit_only = False
+    for pf in ctx.db.fns(CRAWL, name="process_assertion"):
+        gp = paths.guards(pf["body"])
+        dpf = local_decls(pf["body"])
+
+        def mentions_find(c, dpf=dpf):
+            for y in walk(c):
+                if is_call(y, name="find"):
+                    return True
+                if y.get("k") == "ref" and y.get("rk") == "local":
+                    dd = dpf.get(y.get("id")) or {}
+                    if "i" in dd and any(is_call(z, name="find") for z in walk(dd["i"])):
+                        return True
+            return False
+        for r in rets(pf["body"]):
+            for c, pol in gp.get(id(r), ()):
+                if not isinstance(c, tuple) and mentions_find(c):
+                    first_visit_only = True
     for name, mp in (("run_fwd_fixpo", "m_out_map"), ("run_bwd_fixpo", "m_in_map")):
         fs = ctx.db.fns(KG, name=name)
         if not ctx.need(fs, "killgen " + name):
@@ -263,6 +284,9 @@ def r7_accumulate(ctx):
                 okold = isinstance(strip(ro), dict) and strip(ro).get("op") == "[]" and is_field(strip(ro).get("o"), mp)
                 if okm and okold:
                     ctx.ok("%s: %s = merge(%s, %s)" % (name, src(L)[:30], src(new), src(old)), fn, a)
+                elif not first_visit_only and same_expr(strip(R), new):
+                    ctx.ok("%s: %s = %s (every transfer function re-generates its facts, so replacing is the same fixpoint)" %
+                           (name, src(L)[:30], src(new)), fn, a)
                 else:
                     ctx.bad("%s stores `%s` when the new fact is not included in the old one; it must store merge(%s, %s): otherwise facts "
                             "found in an earlier sweep are forgotten (the assertion crawler adds an assertion's own operands only the first "
@@ -369,3 +393,41 @@ def r9_unreachable_statement(ctx):
 
 
 RULES += [r9_unreachable_statement]
+
+
+
+def r10_assertion_regenerated(ctx):
+    ctx.rule("C18.r10", "assertion crawler: process_assertion produces the fact `assertion -> its operands` on EVERY visit of the "
+             "statement (the id is allocated once, the fact is not): a recursive function is analysed several times with the same id "
+             "map and each analysis replaces the previous results", floor=1)
+    fs = ctx.db.fns(CRAWL, name="process_assertion")
+    if not ctx.need(fs, "assertion_crawler process_assertion", "C18.r10"):
+        return
+    seen = set()
+    for fn in fs:
+        if fn.get("cpk") in seen:
+            continue
+        seen.add(fn.get("cpk"))
+        body = fn["body"]
+
+        def gen(n):
+            if n.get("k") == "call" and callee(n) and callee(n)["name"] == "set" and n.get("o") is not None and any(is_call(y, name="get_first") for y in walk(n["o"])):
+                return ("fact",)
+            return ()
+        try:
+            fl = paths.MustEvents(gen)
+            fl.run(body)
+        except paths.Unstructured:
+            ctx.skipped("C18.r10", rid="C18.r10")
+            continue
+        miss = [r for r, st in fl.returns if "fact" not in st]
+        if miss:
+            r = miss[0]
+            ctx.bad("assertion crawler: process_assertion can return without recording the assertion's own operands (a first-visit-only "
+                    "early return): in the second analysis of a recursive function its assertions are never generated again and "
+                    "f:exit, which contains assert(r >= 0), reports {}", fn, r if r is not None else body, sig="assertion-fact-first-visit-only")
+        else:
+            ctx.ok("process_assertion records the fact on every path", fn, body)
+
+
+RULES += [r10_assertion_regenerated]
